@@ -464,7 +464,7 @@ class C20(Prop):
         if os.path.isdir(d):
             for f in sorted(os.listdir(d)):
                 if f.endswith(".json"):
-                    out.append(json.load(open(os.path.join(d, f)))["case"])
+                    out.append(core.load_case_file(os.path.join(d, f))["case"])
         return out
 
     # ---------------------------------------------------------------- execution
